@@ -876,6 +876,11 @@ class _RegionNS(dict):
                         Implies=lambda a, b: (not a) or builtins.bool(b))
 
 
+def label_matches(label, pat):
+    """known-finding label: exact, or a prefix when the pattern ends with '*'"""
+    return label == pat or (pat.endswith("*") and label.startswith(pat[:-1]))
+
+
 def region_holds(expr, values, symbolic=False):
     """Evaluate a region expression; an undeclared variable means the region does not apply (None)."""
     try:
@@ -964,7 +969,7 @@ class SymCtx:
             det = detail(m) if callable(detail) else detail
             hit = None
             for kf in ex.known:
-                if label.startswith(kf["label"]) and kf.get("region"):
+                if label_matches(label, kf["label"]) and kf.get("region"):
                     vals = dict(a)
                     vals.update(self.cfg_values)
                     if region_holds(kf["region"], vals) is True:
